@@ -7,6 +7,12 @@ HERE = os.path.dirname(os.path.dirname(os.path.abspath(__file__)))
 
 # id -> (engine, technique, level text, level note, design ref)
 CHECKS = {
+    "C16": ("BCMC+P2S+XH", "bounded model checking of thread interleavings over the real bytecode (schedule = symbolic z3 array, shared counter/lock versions per step), "
+            "AST->z3 for the id structure, CrossHair enumeration for the sequential contract; sat schedules replayed with real threads via sys.monitoring",
+            "bounded model checking: for each (threads, calls) configuration z3 shows that NO interleaving at instruction granularity and NO initial counter value yields a duplicate, a gap or a deadlock (unsat), "
+            "with a sat reachability twin; the id text is shown uniquely decodable for all numbers",
+            "lock modelled as an owner variable; thread-local instructions commute (partial-order reduction); GIL build",
+            "DESIGN.md 3/C16"),
     "C17": ("XH", "CrossHair-driven exhaustive enumeration (z3 choice variables) of wrapper chains x request arguments x derivation histories; real connection classes against a recording opener, "
             "compared with a reference request builder",
             "bounded exhaustive exploration with exhaustion certificate: chains of <= 3 wrappers, a covering set of argument combinations (full product in thorough), histories of <= 3 derivation steps; "
@@ -94,6 +100,8 @@ def main():
         "engines": [
             {"name": "XH", "path": "vf/xh.py", "serves_properties": [p for p in ALL if p in CHECKS and "XH" in CHECKS[p][0]],
              "kind_free_text": "CrossHair 0.0.110 used as a library: symbolic execution of the real Python functions, z3 per path, own path loop with exhaustion certificate"},
+            {"name": "BCMC", "path": "vf/bcmc.py", "serves_properties": [p for p in ALL if p in CHECKS and "BCMC" in CHECKS[p][0]],
+             "kind_free_text": "bytecode (dis) -> per-thread step lists -> z3 bounded model checking of all interleavings; replay through sys.monitoring instruction events"},
             {"name": "RX", "path": "vf/rx.py", "serves_properties": [p for p in ALL if p in CHECKS and "RX" in CHECKS[p][0]],
              "kind_free_text": "re pattern (parsed by the stdlib's own parser) -> z3 regular expression, language inclusion queries"},
             {"name": "P2S", "path": "vf/p2s.py", "serves_properties": [p for p in ALL if p in CHECKS and "P2S" in CHECKS[p][0]],
